@@ -8,6 +8,7 @@ import (
 
 	"github.com/benoitkugler/webrender/utils"
 
+	"verif/internal/rec"
 	"verif/internal/render"
 )
 
@@ -63,7 +64,7 @@ func docs() []doc {
 	png2 := readFile("/repo/resources_test/icon.png")
 	imgDoc := prelude + `<p>ab <img src="http://h/img.png" style="width:10px;height:10px"> cd<span style="float:footnote">fn ef</span></p><table><tr><td>gh<td>ij</table><p>kl<span style="float:footnote">fn mn</span></p>`
 	fontDoc := func(file string) string {
-		return prelude + `<style>@font-face{font-family:ff;src:url(file://` + file + `)} p{font-family:ff,ahem}</style><p>ab cd</p><p>ef</p>`
+		return prelude + `<style>@font-face{font-family:ff;src:url(file://` + file + `)} p{font-family:ff,ahem} div{font-family:ff,ahem;width:10ex;height:2ch;background:lime}</style><p>ab cd</p><p>ef</p><div></div>`
 	}
 	counterDoc := func(symbols string) string {
 		return prelude + `<style>@counter-style z{system:cyclic;symbols:` + symbols + `} li{list-style:z inside} body{hyphens:auto}</style><ol><li>aa<li>bb<li>cc</ol><p lang="en" style="width:60px">hyphenation extraordinary</p>`
@@ -86,7 +87,9 @@ func docs() []doc {
 		// documents that USE a name defined only by another document: they observe anything that leaks
 		{name: "d6''-counter-style-undefined", html: prelude + `<style>li{list-style:z inside} body{hyphens:auto}</style><ol><li>aa<li>bb<li>cc</ol><p lang="en" style="width:60px">hyphenation extraordinary</p>`},
 		{name: "d7''-img-missing", html: imgDoc, fetcher: fixedFetcher(map[string][]byte{}, map[string]string{})},
-		{name: "d8''-font-face-undefined", html: prelude + `<style>p{font-family:ff,ahem}</style><p>ab cd</p><p>ef</p>`, fresh: true},
+		{name: "d8''-font-face-undefined", html: prelude + `<style>p{font-family:ff,ahem} div{font-family:ff,ahem;width:10ex;height:2ch;background:lime}</style><p>ab cd</p><p>ef</p><div></div>`, fresh: true},
+		// state that painting could leave in the rendered Document: crop marks (a layer added at paint time), several background layers
+		{name: "d12-marks-bleed-layers", html: `<style>@page{size:100px 60px;margin:5px;marks:crop cross;bleed:6px;background:linear-gradient(red,blue) 0 0/80px 50px no-repeat, linear-gradient(lime,green) 0 0/20px 20px no-repeat yellow} html,body{margin:0;font-family:ahem;font-size:10px;line-height:1} div{height:20px;background:linear-gradient(red,blue) 0 0/30px 10px no-repeat, linear-gradient(lime,green) 0 0/10px 20px no-repeat border-box silver;border:2px solid}</style><div>ab</div><p style="break-before:page">cd</p>`},
 	}
 }
 
@@ -105,4 +108,24 @@ func renderTraceOpt(d *doc, noLog bool) string {
 		return "load-error: " + err.Error()
 	}
 	return res.Rec.Trace()
+}
+
+// rewriteTraces renders d once and writes the resulting Document n times, each time to a fresh backend.
+func rewriteTraces(d *doc, n int) []string {
+	o := render.Options{HTML: d.html, Engine: "pango", FreshFonts: true, PageBound: 100, BaseURL: "http://h/"}
+	if d.fetcher != nil {
+		o.Fetcher = d.fetcher()
+	}
+	res, err := render.Render(o)
+	if err != nil {
+		return []string{"load-error: " + err.Error()}
+	}
+	out := []string{res.Rec.Trace()}
+	for i := 1; i < n; i++ {
+		r := rec.New()
+		res.Doc.Write(r, 1, nil)
+		r.Finish()
+		out = append(out, r.Trace())
+	}
+	return out
 }
